@@ -110,6 +110,8 @@ def rewrite_method(cls, name):
 
 
 def _is_symbolic_iterable(it):
+    if hasattr(it, "_concrete") and it._concrete() is not None:
+        return False
     return hasattr(it, "vc_iter")
 
 
